@@ -75,6 +75,7 @@ Skip ==
     /\ \/ (IsSys(E) /\ ~Mutating(E))
        \/ E.ev = "power"
        \/ E.ev = "final"
+       \/ E.ev = "fullmerge"      \* (the closing merge of a fault run is judged by TraceFs; only a reset follows)
     /\ Consume /\ UNCHANGED fvars
 
 \* a crash probe: the specification's recovery of ITS directory agrees with the real one
